@@ -121,6 +121,16 @@ def search(ctx, deep):
                             g = np.asarray(c.generator(np.array([a, u, v])), dtype=float)
                             if not abs(g[0] - (g[1] + g[2])) <= 1e-6 * max(1.0, abs(g[1] + g[2])):
                                 bad('archimedean', {'u': u, 'v': v}, g.tolist(), 'phi(C)=phi(u)+phi(v)')
+                    # ... and deep in the lower corner (the quantifier reaches 1e-12; Frank's CDF underflows there)
+                    if fam != 'frank':
+                        for a_ in (1e-12, 1e-9, 1e-6):
+                            for b_ in (1e-12, 1e-6, 1e-3):
+                                cv = float(cdf(c, [(a_, b_)])[0])
+                                if cv > 0:
+                                    checked += 1
+                                    g = np.asarray(c.generator(np.array([cv, a_, b_])), dtype=float)
+                                    if np.all(np.isfinite(g[1:])) and not abs(g[0] - (g[1] + g[2])) <= 1e-6 * abs(g[1] + g[2]):
+                                        bad('archimedean', {'u': a_, 'v': b_}, g.tolist(), 'phi(C)=phi(u)+phi(v) (lower corner)')
                     g1 = float(np.asarray(c.generator(np.array([1.0])))[0])
                     if not abs(g1) <= 1e-12:
                         bad('generator1', {}, g1, 'generator(1)=0')
